@@ -112,6 +112,30 @@ def gen_random(tier, rng, shape):
         yield 'random-long', ops
 
 
+def gen_sandwich(tier, rng):
+    """Single look-ups interleaved with the declarations, never a sweep: the name about to be declared is looked up
+    immediately before (often a miss) and immediately after its declaration, with no other look-up in between, so that an answer
+    remembered from before the declaration cannot hide behind a later full observation."""
+    for _ in range(200 if tier == 'quick' else 2000):
+        names = rng.sample(NAMES, rng.randint(1, 4))
+        types = rng.sample(TYPES, rng.randint(1, 4))
+        kind = {}
+        ops = ['new']
+        for _ in range(rng.randint(1, 14)):
+            n, t = rng.choice(names), rng.choice(types)
+            if (n, t) not in kind:
+                kind[(n, t)] = rng.choice(kinds_for(t))
+            if rng.random() < 0.7:
+                ops.append('probe %s %s' % (n, rng.choice(types)))
+            ops.append('decl %s %s %s' % (kind[(n, t)], n, t))
+            if rng.random() < 0.85:
+                ops.append('probe %s %s' % (n, t))
+            if rng.random() < 0.3:
+                ops.append('probe %s %s' % (rng.choice(names), rng.choice(types)))
+        ops.append('full')
+        yield 'sandwich', ops
+
+
 def gen_homogeneous(tier, rng):
     per = 150 if tier == 'quick' else 1000
     for hk in ('param', 'enum', 'base', 'eh'):
@@ -130,6 +154,7 @@ def generate(tier, rng, shape):
     cases = []
     cases += gen_exhaustive(5 if tier == 'quick' else 7, rng)
     cases += gen_random(tier, rng, shape)
+    cases += gen_sandwich(tier, rng)
     cases += gen_homogeneous(tier, rng)
     return cases
 
